@@ -298,6 +298,12 @@ func TestC05(t *testing.T) {
 			c.SFlow = &d
 		}
 		v, sig, err := runC05(&c)
+		if err == nil && v.NT && rapid.IntRange(0, 7).Draw(t, "twins") == 0 {
+			if e := concurrently(6, func() error { _, _, e := runC05(&c); return e }); e != nil {
+				sig, err = "concurrent", fmt.Errorf("decoded and encoded by 6 goroutines at once: %v", e)
+			}
+			v.label(true, "concurrent-twins")
+		}
 		col.report(t, mustJSON(c), v, sig, err)
 	})
 }
